@@ -35,6 +35,10 @@ type ProcPlan struct {
 	// everything, closes the queue, waits, and only then collects the results:
 	// the result buffer was asked to be large enough for that.
 	DrainAfterWait bool `json:"drain_after_wait,omitempty"`
+	// PreClosed: the operations are queued and the queue is closed before the
+	// Processor is built (the queue is the caller's channel), so workers may
+	// finish while NewProcessor is still starting their siblings.
+	PreClosed bool `json:"pre_closed,omitempty"`
 }
 
 // Operations numbered <= panicBase panic instead of returning; the Processor
@@ -86,6 +90,14 @@ func runProcessor(t *testing.T, c *Case, o RunOpts) *Result {
 		var p *concurrent.Processor
 		sim.Client("main", func() {
 			queue := make(chan concurrent.Operator, pl.Queue)
+			if pl.PreClosed {
+				queue = make(chan concurrent.Operator, maxInt(pl.Queue, len(pl.Ops)))
+				for _, v := range pl.Ops {
+					v := v
+					sim.SendChan(queue, func() { queue <- procOp{v} })
+				}
+				sim.CloseChan(queue, func() { close(queue) })
+			}
 			p = concurrent.NewProcessor(queue, pl.Buffer, pl.Threads)
 			if pl.DrainAfterWait {
 				// single caller: submit, close, wait, then collect
@@ -115,6 +127,9 @@ func runProcessor(t *testing.T, c *Case, o RunOpts) *Result {
 				return
 			}
 			sim.Go("producer", func() {
+				if pl.PreClosed {
+					return
+				}
 				if pl.Batch > 1 {
 					for i := 0; i < len(pl.Ops); i += pl.Batch {
 						var batch []concurrent.Operator
@@ -249,6 +264,9 @@ func genProcessor(r *simrt.RNG) *Case {
 			Sched: PickStrategy(r, 40+20*n, []string{procWorkerSite, "client:"}, nil)}
 	}
 	pl.CollectFirst = r.Intn(3) == 0
+	if !pl.CollectFirst && r.Intn(6) == 0 {
+		pl.PreClosed = true
+	}
 	if r.Intn(4) == 0 {
 		pl.Batch = r.Range(2, 5)
 	}
@@ -301,6 +319,11 @@ func shrinkProcessor(c *Case) []*Case {
 	if pl.Batch > 1 {
 		q := pl
 		q.Batch = 0
+		add(q)
+	}
+	if pl.PreClosed {
+		q := pl
+		q.PreClosed = false
 		add(q)
 	}
 	if pl.Buffer > 0 && !(pl.DrainAfterWait && pl.Buffer <= len(pl.Ops)) {
